@@ -47,17 +47,31 @@ def _site(rng, npool, allow_complex=False, p_prior=0.55):
     return {"k": "sqrt", "i": i}
 
 
+CHANNELS = [["red", "green"], ["red", "green", "blue"], ["a", "b"]]
+
+
 def _gen_struct(rng, shape, npool):
     S = lambda **kw: _site(rng, npool, **kw)
     vec = lambda n: [S() for _ in range(n)]
+
+    def index(layers=None):
+        """refractive index: one site, or (every fifth time) a per-channel dictionary of sites / of per-layer lists of sites"""
+        one = (lambda: S(allow_complex=True)) if layers is None else (lambda: {"k": "list", "items": [S(allow_complex=True) for _ in range(layers)]})
+        if rng.random() < 0.2:
+            labs = CHANNELS[int(rng.integers(0, len(CHANNELS)))]
+            return {"k": "chan", "d": {l: one() for l in labs}}
+        return None
     if shape == "sphere":
-        return {"t": "sphere", "n": S(allow_complex=True), "r": S(), "center": vec(3)}
+        return {"t": "sphere", "n": index() or S(allow_complex=True), "r": S(), "center": vec(3)}
     if shape.startswith("layered"):
         L = int(shape[-1])
+        ch = index(L)
+        if ch is not None:
+            return {"t": "layered_chan", "n": ch, "r": vec(L), "center": vec(3)}
         return {"t": "layered", "n": [S(allow_complex=True) for _ in range(L)], "r": vec(L), "center": vec(3)}
     if shape.startswith("spheres"):
         m = int(shape[-1])
-        return {"t": "spheres", "members": [{"t": "sphere", "n": S(allow_complex=True), "r": S(), "center": vec(3)} for _ in range(m)]}
+        return {"t": "spheres", "members": [{"t": "sphere", "n": index() or S(allow_complex=True), "r": S(), "center": vec(3)} for _ in range(m)]}
     if shape == "spheroid":
         return {"t": "spheroid", "n": S(), "r": vec(2), "rotation": vec(3), "center": vec(3)}
     if shape == "cylinder":
@@ -178,6 +192,10 @@ def _build_site(s, pool):
         return np.sqrt(pool[s["i"]])
     if k == "cplx":
         return ComplexPrior(_build_site(s["re"], pool), _build_site(s["im"], pool))
+    if k == "chan":
+        return {l: _build_site(v, pool) for l, v in s["d"].items()}
+    if k == "list":
+        return [_build_site(v, pool) for v in s["items"]]
     raise ValueError(k)
 
 
@@ -207,7 +225,28 @@ def _site_priors(s, acc):
         acc += [s["i"], s["j"]]
     elif k == "cplx":
         _site_priors(s["re"], acc); _site_priors(s["im"], acc)
+    elif k == "chan":
+        for v in s["d"].values():
+            _site_priors(v, acc)
+    elif k == "list":
+        for v in s["items"]:
+            _site_priors(v, acc)
     return acc
+
+
+def _flat(prefix, s):
+    """(path, leaf site) pairs of a possibly nested (per-channel dictionary / per-layer list) site"""
+    if s["k"] == "chan":
+        out = []
+        for l, v in s["d"].items():
+            out += _flat(prefix + "." + l, v)
+        return out
+    if s["k"] == "list":
+        out = []
+        for i, v in enumerate(s["items"]):
+            out += _flat(prefix + ".%d" % i, v)
+        return out
+    return [(prefix, s)]
 
 
 def _build_scatterer(st, pool):
@@ -218,6 +257,8 @@ def _build_scatterer(st, pool):
         return Sphere(n=B(st["n"]), r=B(st["r"]), center=[B(c) for c in st["center"]])
     if t == "layered":
         return Sphere(n=[B(x) for x in st["n"]], r=[B(x) for x in st["r"]], center=[B(c) for c in st["center"]])
+    if t == "layered_chan":
+        return Sphere(n=B(st["n"]), r=[B(x) for x in st["r"]], center=[B(c) for c in st["center"]])
     if t == "spheres":
         return Spheres([_build_scatterer(m, pool) for m in st["members"]], warn=False)
     if t == "spheroid":
@@ -234,9 +275,11 @@ def _sites(st, prefix=""):
     """list of (path, site) for a structure"""
     out = []
     t = st["t"]
-    if t in ("sphere", "layered"):
+    if t in ("sphere", "layered", "layered_chan"):
         if t == "sphere":
-            out += [(prefix + "n", st["n"]), (prefix + "r", st["r"])]
+            out += _flat(prefix + "n", st["n"]) + [(prefix + "r", st["r"])]
+        elif t == "layered_chan":
+            out += _flat(prefix + "n", st["n"]) + [(prefix + "r.%d" % i, s) for i, s in enumerate(st["r"])]
         else:
             out += [(prefix + "n.%d" % i, s) for i, s in enumerate(st["n"])] + [(prefix + "r.%d" % i, s) for i, s in enumerate(st["r"])]
         out += [(prefix + "center.%d" % i, s) for i, s in enumerate(st["center"])]
@@ -262,8 +305,16 @@ def _read(obj, path):
         i, rest = path.split(":", 1)
         return _read(obj.scatterers[int(i)], rest)
     if "." in path:
-        nm, j = path.split(".")
-        return np.asarray(getattr(obj, nm)).tolist()[int(j)] if not isinstance(getattr(obj, nm), (list, tuple)) else getattr(obj, nm)[int(j)]
+        parts = path.split(".")
+        v = getattr(obj, parts[0])
+        for j in parts[1:]:
+            if isinstance(v, dict):
+                v = v[j] if j in v else v[int(j)]
+            elif isinstance(v, (list, tuple)):
+                v = v[int(j)]
+            else:
+                v = np.asarray(v).tolist()[int(j)]
+        return v
     v = getattr(obj, path)
     if isinstance(v, np.ndarray) and v.ndim == 0:
         v = v.item()
@@ -561,6 +612,10 @@ def _run_roundtrip(case):
     st = _gen_struct(rng, case["shape"], npool)
     # make every site fixed
     def fix(s):
+        if isinstance(s, dict) and s.get("k") == "chan":
+            return {"k": "chan", "d": {l: fix(v) for l, v in s["d"].items()}}
+        if isinstance(s, dict) and s.get("k") == "list":
+            return {"k": "list", "items": [fix(v) for v in s["items"]]}
         if isinstance(s, dict) and "k" in s:
             return {"k": "fix", "v": float(rng.uniform(0.3, 2.0))}
         if isinstance(s, dict):
@@ -590,11 +645,25 @@ def _run_roundtrip(case):
             except Exception:
                 pass
     # parameters() hands out copies: mutating them or the rebuilt object leaves the original alone
-    for k, v in pars.items():
-        if isinstance(v, list) and v:
-            v[0] = -99.0
-        elif isinstance(v, np.ndarray) and v.size:
+    def poke(v, depth=0):
+        """edit every mutable container reachable from v in place (innermost first)"""
+        if depth > 6:
+            return
+        if isinstance(v, dict):
+            for x in list(v.values()):
+                poke(x, depth + 1)
+            for kk in list(v.keys()):
+                if not isinstance(v[kk], (dict, list, np.ndarray)):
+                    v[kk] = -99.0
+        elif isinstance(v, list):
+            for x in v:
+                poke(x, depth + 1)
+            if v and not isinstance(v[0], (dict, list, np.ndarray)):
+                v[0] = -99.0
+        elif isinstance(v, np.ndarray) and v.size and v.flags.writeable and v.dtype.kind in "fc":
             v[...] = -99.0
+    for k, v in pars.items():
+        poke(v)
     flags["parameters_dict_is_a_copy"] = bool(digest(s) == d0)
     try:
         for m in (b.scatterers if hasattr(b, "scatterers") else [b]):
@@ -605,6 +674,8 @@ def _run_roundtrip(case):
                 c[0] = 1e9
             if isinstance(getattr(m, "r", None), list):
                 m.r[0] = 1e9
+            for attr in ("n", "r"):
+                poke(getattr(m, attr, None))
     except Exception:
         pass
     flags["rebuilt_shares_no_mutable_state"] = bool(digest(s) == d0)
